@@ -358,13 +358,14 @@ REGISTRY = {
     "C06": Prop(
         targets=["PsProps.C06"],
         theorems=[("PsProps.C06", "Ps.Props.C06_store_primes"), ("PsProps.C06", "Ps.Props.C06_no_truncation"),
-                  ("PsProps.C06", "Ps.Props.C06_next_block"), ("PsProps.C06", "Ps.Props.C06_storeMaxPrime")],
+                  ("PsProps.C06", "Ps.Props.C06_next_block"), ("PsProps.C06", "Ps.Props.C06_storeMaxPrime"),
+                  ("PsProps.C06", "Ps.Props.C06_store_n_primes")],
         tie=combine(("store", streams.STORE.tie)), witness=combine_witness(streams.STORE.witness),
         assumptions=ITER_ASSUME + ["std::vector::insert/push_back/reserve append and never touch existing elements"],
-        undischarged=["IGen ~ PrimeGenerator (sieve chain)", "store_n_primes: modelled (PsModel.Store.storeNPrimes) and "
-                      "tied by the store stream; its theorem is not proved yet"],
+        undischarged=["IGen ~ PrimeGenerator (sieve chain)"],
         explanation="store_primes over the iterator model appends exactly primesIn start stop, or throws before storing "
-                    "anything when stop exceeds the element type; the block loop terminates"),
+                    "anything when stop exceeds the element type; store_n_primes appends exactly the first n primes >= start or "
+                    "throws with an exact prefix when the n-th does not fit; both block loops terminate"),
     "C07": Prop(
         targets=["PsProps.C07"],
         theorems=[("PsProps.C07", "Ps.Props.C07_extreme_n_rejected"), ("PsProps.C07", "Ps.Props.C07_negation_in_range"),
